@@ -16,7 +16,7 @@ def replay(group, trace):
     import replaylib as R
     exe = R.build_full('C30.cpp')
     outs, hit = [], False
-    for i, mode in enumerate(['local', 'hint']):
+    for i, mode in enumerate(['local', 'hint', 'undecodable', 'dir']):
         port = 21000 + (os.getpid() * 11 + i * 977 + random.randint(0, 4000)) % 18000
         rc, out = R.run(exe, [port, mode], timeout=120)
         last = [l for l in out.strip().splitlines() if l.strip()][-1:] or ['']
